@@ -54,7 +54,10 @@ def _fs():
 
 
 def _np_default():
-    np.seterr(divide="warn", over="warn", under="ignore", invalid="warn")
+    # `import forsys` sets np.seterr(all='raise') (forsys/__init__.py) and ForceMatrix.solve / solve_system set it again:
+    # that is the error state every user of the package runs in, and the taubinSVD -> dlite fallback of
+    # calculate_circle_center (except FloatingPointError) relies on it.  Every case starts from exactly that state.
+    np.seterr(all="raise")
 
 
 # ======================================================================================================
